@@ -2124,6 +2124,36 @@ package leveldb
 //@   at before call (*version).get#1
 //@     assert [C01,C19:buffers-before-tables] calls("memGet") == old(calls("memGet")) + (auxm != nil ? 1 : 0) + (em != nil ? 1 : 0) + (fm != nil ? 1 : 0)
 
+// C03 / C18 / C07: giving a view back. A snapshot gives its registration back exactly once - the first Release does,
+// any later one does nothing (a second release would un-pin what another snapshot at the same sequence number still
+// needs); an iterator releases its source and its version reference exactly once and a second Release touches nothing.
+//@ ghost var gIterSourceReleased bool
+//@ ghost var gIterVersionReleased bool
+//@ func (*Snapshot).Release
+//@   props C03 C18
+//@   safety off
+//@   requires [C03,C18:a-live-snapshot-holds-its-registration] snap.released || snap.elem != nil
+//@   ensures [C03,C18:the-first-release-gives-the-registration-back-once] !old(snap.released) ==> (snap.released && calls("(*DB).releaseSnapshot") == old(calls("(*DB).releaseSnapshot")) + 1)
+//@   ensures [C03,C18:a-second-release-does-nothing] old(snap.released) ==> (snap.released && calls("(*DB).releaseSnapshot") == old(calls("(*DB).releaseSnapshot")))
+//@   at before call (*DB).releaseSnapshot#1
+//@     assert [C03,C18:it-is-the-snapshots-own-registration-that-is-given-back] arg0 == old(snap.elem)
+//@ func (*dbIter).Release
+//@   props C03 C18 C07
+//@   safety off
+//@   at entry
+//@     ghost gIterSourceReleased = false
+//@     ghost gIterVersionReleased = false
+//@   at before call util.Releaser.Release#1
+//@     assert [C03,C07,C18:a-second-release-does-nothing] old(i.dir) != dirReleased && !gIterVersionReleased
+//@   at call util.Releaser.Release#1
+//@     ghost gIterVersionReleased = true
+//@   at before call util.Releaser.Release#2
+//@     assert [C03,C07,C18:a-second-release-does-nothing] old(i.dir) != dirReleased && !gIterSourceReleased
+//@   at call util.Releaser.Release#2
+//@     ghost gIterSourceReleased = true
+//@   ensures [C03,C07,C18:the-first-release-releases-the-source-and-the-version-once] old(i.dir) != dirReleased ==> (i.dir == dirReleased && gIterSourceReleased && (old(i.releaser) != nil ==> gIterVersionReleased) && i.releaser == nil)
+//@   ensures [C03,C07,C18:a-second-release-does-nothing] old(i.dir) == dirReleased ==> (i.dir == dirReleased && !gIterSourceReleased && !gIterVersionReleased)
+
 // C03 / C01: a read of the DB runs under a registered sequence number: the temporary snapshot Get, Has and NewIterator
 // take is still registered when the read (or the assembly of the iterator, which pins the version) happens, so that no
 // compaction finishing meanwhile may drop the versions the read is entitled to.
